@@ -54,7 +54,7 @@
   Hypotheses beyond the task statement: `C07.NoDup s` (no two stored entries at the same position)
   in the entry forms — `C07.multiply_rounding` needs it, because with duplicates `|a_ij|` can be
   smaller than the sum of the stored magnitudes; the slot forms cover duplicates.
-  NOT done: BiCGSTAB and QMR (C08F has no model-level drift theorem for them); `norm2` and the
+  NOT done here: BiCGSTAB (done in C08H) and QMR (no drift theorem); `norm2` and the
   comparison `Transc.le` stay abstract (there is no `Transc (Fl M)` instance).
 
   Examples: `spd2F` (the SPD matrix `[[2,1],[1,2]]`) satisfies `SqWF`, `NoDup`, row sums `≤ 3`, two
